@@ -493,6 +493,8 @@ class Run:
                         box['t'].next()
                     elif a[0] == 'next':
                         run.tasks[a[1]].next()
+                    elif a[0] == 'bpb':
+                        run.clock.beats_per_bar = a[1]     # legal: this routine plays on the clock
                     elif a[0] == 'raise':
                         raise RuntimeError('routine %d raises' % tid)
                     elif a[0] == 'stop':
@@ -593,7 +595,10 @@ class Run:
             elif k in ('tempo', 'beats_add', 'etempo'):
                 self.retime(op, who, lock=True)
             elif k == 'bpb':
-                c.beats_per_bar = op[1]      # only legal from the clock's own tasks; does not move the time map
+                try:
+                    c.beats_per_bar = op[1]  # does not move the time map; refused (ClockError) unless the caller is a
+                except clk.ClockError:       # routine playing on this very clock: a documented refusal, not an error
+                    pass
             elif k == 'nolock':
                 self.retime(op[1], who, lock=PROXIES)
             elif k == 'via':
